@@ -20,6 +20,12 @@ CLAIMED = {
         "note": "Bound 4*(H*T+10)*eps*sum|terms|; non-finite inputs are skipped (counted); the direct pl() group is plain value generation and is labelled so in the evidence.",
         "technique": TECH + "exact-rational ledger reference model stepped through simulated time, market-data faults",
     },
+    "C11": {
+        "text": "Well-formedness invariants (shape, documented buffer set, first column = requested or default initial state, finiteness, positivity of exponential-type prices, non-negative variances, volatility = sqrt(variance), dtype, buffers replaced entirely - no shared storage, old tensors untouched, no surviving column) are evaluated after EVERY simulate() of a primary, whoever triggered it (primary, derivative, compute_loss, price, fit, lazy materialisation; observed through an instance-level wrapper that also checks that n_paths / init_state were forwarded), in seeded histories with casts, default-dtype flips (F4) and re-simulation with changing shape (F10); plus direct calls of the nine generate_* functions with the same parameter swarm (n_steps >= 1, scalar/tuple initial states, float32/64, half precisions with default parameters). Both QE branches are counted by re-deriving psi from the produced path.",
+        "design_ref": "DESIGN.md 6/C11",
+        "note": "First column compared within 4 ulp; half precisions: shape/dtype only, missing CPU kernels tolerated; one known finding (rough Bergomi with a single time point).",
+        "technique": TECH + "invariants at an instance-level simulate() seam over seeded cast / re-simulate / trigger histories",
+    },
     "C12": {
         "text": "Payoffs are monitored inside seeded histories on a family of up to 10 derivatives sharing one underlier and one strike: after re-simulation (F10), casts, clause registration by another actor and market-data faults (F9) that pin the terminal / running extreme / start price exactly on the strike, incl. T=1 and T=2 grids. Oracles: per-path contract evaluated in exact rational arithmetic (mpmath for the variance swap; exact-rational start index for the forward start), fold of the registered clauses in registration order over payoff_fn() (bitwise), relations between the family members (lookback >= European >= 0, American >= European binary, call - put = S_T - K), one entry per path.",
         "design_ref": "DESIGN.md 6/C12",
@@ -43,6 +49,12 @@ CLAIMED = {
         "design_ref": "DESIGN.md 6/C03",
         "note": "Cross-schedule agreement is checked within an evaluation-order tolerance (16 ulp for direct features; 1e-4 float32 / 1e-9 float64 for model outputs, P&L, loss); recurrent-state checks are bitwise.",
         "technique": TECH + "two schedules of one computation compared at a recording per-step seam, volatile-state faults",
+    },
+    "C17": {
+        "text": "Seeded sequences (2-10 ops) over a 29-letter alphabet of casts (to(dtype/None/device/tensor/instrument/int), all shorthands, derivative.to), simulate (primary / derivative), register_buffer and global default-dtype flips (F4), for all 8 primaries x 6 derivative kinds x both initial defaults, checked after every operation against a reference state machine of the declared dtype: instrument.dtype, every buffer dtype, derivative alias, rejection of non-floating targets without state change, and the dtype of payoff, every feature (all steps and single step), listed price, hedge, P&L (also with a listed hedge), Black-Scholes hedger outputs, and of compute_loss / price after re-simulation.",
+        "design_ref": "DESIGN.md 6/C17",
+        "note": "Samples the sequence space by seed (the property text asks for exhaustive bounded enumeration, which is model checking, not this family); evidence reports distinct op prefixes of length <= 3 visited. CPU only; exceptions under float16/bfloat16 are tolerated and counted.",
+        "technique": TECH + "seeded operation sequences against a reference dtype state machine, default-dtype fault",
     },
     "C16": {
         "text": "Seeded search over interleaved multi-actor histories (simulate / hedge / P&L / loss / price / fit / casts / feature, Black-Scholes, criterion and functional calls) on shared instruments and hedgers, with faults F2 (volatile-state corruption), F3 (restart from durable state), F7 (RNG replay), F8 (callback exception) and F10 (re-simulation by another actor). Invariant after every operation: every buffer of every instrument and every caller tensor is bitwise unchanged; history oracle: a fresh clone built from durable state gives bitwise the same result. Sampling, not proof.",
